@@ -248,6 +248,24 @@ def ref_reset(ref, kappa=1.0):
 
 
 # ------------------------------------------------------------------ harness-built conditioning
+def truncates(xpt):
+    """Does the solver's eigenvalue truncation (|eig| <= eps on the scaled matrix) apply to this set?  Decided by
+    the harness from its own copy of the scaled matrix (with a factor 4 of safety), not from the flag the code
+    returns."""
+    n, npt = xpt.shape
+    scale = max(float(np.max(np.linalg.norm(xpt, axis=0), initial=EPS)), EPS)
+    xs = xpt / scale
+    a = np.zeros((npt + n + 1, npt + n + 1))
+    a[:npt, :npt] = 0.5 * (xs.T @ xs) ** 2.0
+    a[:npt, npt] = 1.0
+    a[npt, :npt] = 1.0
+    a[:npt, npt + 1:] = xs.T
+    a[npt + 1:, :npt] = xs
+    with np.errstate(all="ignore"):
+        ev = np.linalg.eigvalsh(a)
+    return (not np.all(np.isfinite(ev))) or bool(np.min(np.abs(ev)) <= 4.0 * EPS)
+
+
 def kappa_of(xpt):
     """2-norm condition number of the scaled KKT matrix (same scaling rule as the solver, rebuilt here)."""
     n, npt = xpt.shape
@@ -378,7 +396,8 @@ class ModelsClient:
             info = {"op": op, "ill": bool(np.any(np.abs(ev) <= EPS)), "pre": None, "reset": True}
         new = {"n": n, "npt": st["npt"], "real": pickle.dumps(models), "ref": newref,
                "hist": st["hist"] + [list(op)], "kappa": kappa, "depth": st["depth"] + 1,
-               "trunc": bool(info.get("ill")) if op[0] == "reset" else bool(st.get("trunc") or info.get("ill")),
+               "trunc": truncates(models.interpolation.xpt) if op[0] == "reset"
+               else bool(st.get("trunc") or truncates(models.interpolation.xpt)),
                "flags": (["ill_conditioned"] if info.get("ill") else []) + [op[0]]}
         return new, models, info
 
